@@ -196,9 +196,6 @@ def build(spec, task_hashes=None, comp_hashes=None, junk=0):
         else:
             task = BaseTask(**kw)
         h.tasks.append(task)
-    for pred, succ, kind in spec.get("deps", []):
-        h.tasks[succ].append_input_task(h.tasks[pred], BaseTaskDependency(kind))
-
     cspecs = spec.get("comps", [])
     for i, c in enumerate(cspecs):
         kw = dict(name="C" + str(i), ID=cid(i), space_size=c.get("space", 1.0))
@@ -208,28 +205,8 @@ def build(spec, task_hashes=None, comp_hashes=None, junk=0):
         else:
             comp = BaseComponent(**kw)
         h.comps.append(comp)
-    for i, c in enumerate(cspecs):
-        if c.get("parent") is not None:
-            h.comps[c["parent"]].append_child_component(h.comps[i])
-    for i, t in enumerate(tspecs):
-        if t.get("comp") is not None:
-            h.comps[t["comp"]].append_targeted_task(h.tasks[i])
-    for i, c in enumerate(cspecs):
-        # one-sided links (what BaseComponent(targeted_task_list=[...]) gives): the component lists the task,
-        # the task's target_component does not point back (it may point to another component)
-        for k in c.get("extra_tasks", ()):
-            h.comps[i].targeted_task_list.append(h.tasks[k])
-
     for i, tm in enumerate(spec.get("teams", [])):
-        team = BaseTeam(name="TM" + str(i), ID=tmid(i))
-        for k in tm.get("targets", []):
-            if k in tm.get("notask", ()):
-                # one-sided link (what BaseTeam(targeted_task_list=[...]) gives): the team lists the
-                # task, the task does not list the team; the simulator only reads the team side
-                team.targeted_task_list.append(h.tasks[k])
-            else:
-                team.append_targeted_task(h.tasks[k])
-        h.teams.append(team)
+        h.teams.append(BaseTeam(name="TM" + str(i), ID=tmid(i)))
     for i, w in enumerate(spec.get("workers", [])):
         worker = BaseWorker(
             name=wname(i),
@@ -251,15 +228,7 @@ def build(spec, task_hashes=None, comp_hashes=None, junk=0):
         workplace = BaseWorkplace(
             name="WP" + str(i), ID=wpid(i), max_space_size=wp.get("cap", 1.0)
         )
-        for k in wp.get("targets", []):
-            if k in wp.get("notask", ()):
-                workplace.targeted_task_list.append(h.tasks[k])
-            else:
-                workplace.append_targeted_task(h.tasks[k])
         h.wps.append(workplace)
-    for i, wp in enumerate(spec.get("wps", [])):
-        for k in wp.get("inputs", []):
-            h.wps[i].append_input_workplace(h.wps[k])
     for i, f in enumerate(spec.get("facs", [])):
         facility = BaseFacility(
             name=fname(i),
@@ -275,6 +244,7 @@ def build(spec, task_hashes=None, comp_hashes=None, junk=0):
         h.wps[f["wp"]].add_facility(facility)
         h.facs.append(facility)
 
+    _wire(h, spec)
     order = spec.get("order")
     if order is None:
         order = list(range(len(h.tasks)))
@@ -286,6 +256,180 @@ def build(spec, task_hashes=None, comp_hashes=None, junk=0):
         organization=BaseOrganization(team_list=list(h.teams), workplace_list=list(h.wps)),
     )
     return h
+
+
+def _wire(h, spec):
+    """All relations of the model (dependencies, component tree, task<->component/team/workplace links, conveyor links)."""
+    tspecs = spec.get("tasks", [])
+    cspecs = spec.get("comps", [])
+    for pred, succ, kind in spec.get("deps", []):
+        h.tasks[succ].append_input_task(h.tasks[pred], BaseTaskDependency(kind))
+    for i, c in enumerate(cspecs):
+        if c.get("parent") is not None:
+            h.comps[c["parent"]].append_child_component(h.comps[i])
+    for i, t in enumerate(tspecs):
+        if t.get("comp") is not None:
+            h.comps[t["comp"]].append_targeted_task(h.tasks[i])
+    for i, c in enumerate(cspecs):
+        # one-sided links (what BaseComponent(targeted_task_list=[...]) gives): the component lists the task,
+        # the task's target_component does not point back (it may point to another component)
+        for k in c.get("extra_tasks", ()):
+            h.comps[i].targeted_task_list.append(h.tasks[k])
+    for i, tm in enumerate(spec.get("teams", [])):
+        team = h.teams[i]
+        for k in tm.get("targets", []):
+            if k in tm.get("notask", ()):
+                # one-sided link (what BaseTeam(targeted_task_list=[...]) gives): the team lists the
+                # task, the task does not list the team; the simulator only reads the team side
+                team.targeted_task_list.append(h.tasks[k])
+            else:
+                team.append_targeted_task(h.tasks[k])
+    for i, wp in enumerate(spec.get("wps", [])):
+        workplace = h.wps[i]
+        for k in wp.get("targets", []):
+            if k in wp.get("notask", ()):
+                workplace.targeted_task_list.append(h.tasks[k])
+            else:
+                workplace.append_targeted_task(h.tasks[k])
+    for i, wp in enumerate(spec.get("wps", [])):
+        for k in wp.get("inputs", []):
+            h.wps[i].append_input_workplace(h.wps[k])
+
+
+# --------------------------------------------------------------------------------------------
+# warm start: the observed run is not the first thing that happens to the objects
+# --------------------------------------------------------------------------------------------
+def perturb(spec, k):
+    """A model of the same shape with other attribute values (values rotated by k among like objects)."""
+    ps = json.loads(json.dumps(spec))
+    ps.pop("warm", None)
+
+    def rot(items, keys):
+        n = len(items)
+        if n < 2:
+            return
+        vals = [{kk: it.get(kk) for kk in keys} for it in items]
+        for i, it in enumerate(items):
+            src = vals[(i + k) % n]
+            for kk in keys:
+                if src[kk] is None and kk in ("notask",):
+                    it.pop(kk, None)
+                else:
+                    it[kk] = src[kk]
+
+    rot(ps["workers"], ["cost", "solo", "skills", "abs", "mw", "fsk"])
+    rot(ps["teams"], ["targets", "notask"])
+    for tm in ps["teams"]:
+        if tm.get("notask") is None:
+            tm.pop("notask", None)
+    rot(ps["facs"], ["cost", "solo", "skills", "abs"])
+    rot([t for t in ps["tasks"] if not t.get("auto") and not t.get("sub")], ["work", "fixw", "wr"])
+    if k % 2 == 1 and ps["comps"] and not any(c.get("parent") is not None for c in ps["comps"]):
+        # flat product: in the other model every component-bound task sits on component 0, the other
+        # components carry no task (and get theirs only when the model is edited)
+        for t in ps["tasks"]:
+            if t.get("comp") is not None:
+                t["comp"] = 0
+        for c in ps["comps"]:
+            c.pop("extra_tasks", None)
+    return ps
+
+
+def morph(h, spec):
+    """Edit the live objects of `h` (built from a spec of the same shape) in place until the model equals `spec`."""
+    from .core import HarnessError
+
+    if (
+        len(h.tasks) != len(spec["tasks"])
+        or len(h.comps) != len(spec["comps"])
+        or len(h.teams) != len(spec["teams"])
+        or len(h.workers) != len(spec["workers"])
+        or len(h.wps) != len(spec["wps"])
+        or len(h.facs) != len(spec["facs"])
+    ):
+        raise HarnessError("morph: the specs do not have the same shape")
+    for t in h.tasks:
+        t.input_task_list = []
+        t.output_task_list = []
+        t.allocated_team_list = []
+        t.allocated_workplace_list = []
+        t.target_component = None
+    for c in h.comps:
+        c.parent_component_list = []
+        c.child_component_list = []
+        c.targeted_task_list = []
+    for tm in h.teams:
+        tm.targeted_task_list = []
+    for wp in h.wps:
+        wp.targeted_task_list = []
+        wp.input_workplace_list = []
+        wp.output_workplace_list = []
+    for i, t in enumerate(spec["tasks"]):
+        o = h.tasks[i]
+        o.default_work_amount = t.get("work", 1.0)
+        o.work_amount_progress_of_unit_step_time = t.get("rate", 1.0)
+        o.workplace_priority_rule = WorkplacePriorityRuleMode(t.get("wpr", 0))
+        o.worker_priority_rule = ResourcePriorityRuleMode(t.get("wr", -1))
+        o.facility_priority_rule = ResourcePriorityRuleMode(t.get("fr", 0))
+        o.need_facility = bool(t.get("nf", False))
+        o.default_progress = t.get("prog", 0.0)
+        o.due_time = t.get("due", -1)
+        o.auto_task = bool(t.get("auto", False)) or bool(t.get("sub"))
+        o.fixing_allocating_worker_id_list = [wid(k) for k in t["fixw"]] if t.get("fixw") is not None else None
+        o.fixing_allocating_facility_id_list = [fid(k) for k in t["fixf"]] if t.get("fixf") is not None else None
+    for i, c in enumerate(spec["comps"]):
+        h.comps[i].space_size = c.get("space", 1.0)
+    for i, w in enumerate(spec["workers"]):
+        o = h.workers[i]
+        if o.team_id != tmid(w["team"]):
+            raise HarnessError("morph: worker %d changes team" % i)
+        o.cost_per_time = w.get("cost", 0.0)
+        o.solo_working = bool(w.get("solo", False))
+        o.workamount_skill_mean_map = {tname(int(k)): v for k, v in w.get("skills", {}).items()}
+        o.facility_skill_map = {fname(int(k)): v for k, v in w.get("fsk", {}).items()}
+        o.absence_time_list = list(w.get("abs", []))
+        o.main_workplace_id = wpid(w["mw"]) if w.get("mw") is not None else None
+    for i, wp in enumerate(spec["wps"]):
+        h.wps[i].max_space_size = wp.get("cap", 1.0)
+    for i, f in enumerate(spec["facs"]):
+        o = h.facs[i]
+        if o.workplace_id != wpid(f["wp"]):
+            raise HarnessError("morph: facility %d changes workplace" % i)
+        o.cost_per_time = f.get("cost", 0.0)
+        o.solo_working = bool(f.get("solo", False))
+        o.workamount_skill_mean_map = {tname(int(k)): v for k, v in f.get("skills", {}).items()}
+        o.absence_time_list = list(f.get("abs", []))
+    _wire(h, spec)
+    order = spec.get("order") or list(range(len(h.tasks)))
+    h.project.workflow.task_list = [h.tasks[i] for i in order]
+
+
+def warm_build(spec, **build_kw):
+    """build(spec), or - when the spec asks for a warm start - a project that has already lived:
+
+    spec["warm"] = {"mode": "morph", "k": n}: a model of the same shape with other attribute values is built and
+        simulated, then its objects are edited in place into `spec` (attribute assignment, as the repository's
+        fixtures do), so that anything the library cached in those objects is stale;
+    spec["warm"] = {"mode": "graft", "k": n}: the other model is simulated, then product, workflow and organization
+        of that *project object* are replaced by freshly built ones (same IDs, new objects).
+    The observed simulate() that follows re-initializes everything, so the result must equal the cold one.
+    """
+    warm = spec.get("warm")
+    if not warm:
+        return build(spec, **build_kw)
+    ps = perturb(spec, int(warm.get("k", 1)))
+    h0 = build(ps, **build_kw)
+    simulate(h0.project, dict(ps.get("opts", default_opts()), max_time=12))
+    if warm.get("mode") == "graft":
+        h1 = build(spec, **build_kw)
+        p = h0.project
+        p.product = h1.project.product
+        p.workflow = h1.project.workflow
+        p.organization = h1.project.organization
+        h1.project = p
+        return h1
+    morph(h0, spec)
+    return h0
 
 
 def sim_kwargs(opts):
